@@ -15,7 +15,7 @@ use serde::{Deserialize, Serialize};
 use serde_json::json;
 use std::str::FromStr;
 
-pub const RULE: &str = "generated: (a) arbitrary requests assembled from pieces -- any method token, request targets from path/query fragments (bad escapes, dot segments, '*', absolute form), arbitrary header names/values (all bytes the http crate admits), Authorization headers and X-Amz-* parameters from a grammar of near-valid and garbage forms, every content-type / charset label x arbitrary body bytes, all option and requirement combinations, server clocks over chrono's whole range; (b) LARGE requests: form bodies of 64-200 KiB folded into the query, request targets up to the http crate's 65534-byte limit, thousands of parameters and headers; (c) direct calls of every public operation with arbitrary arguments (path/query/header canonicalisers, normalize_*, trim_ascii*, latin1_to_string, KSecretKey::<M>::from_str and all derivations, builders with missing fields, prevalidate/validate_signature on builder-made authenticators with arbitrary credentials, extreme clocks and durations, error conversions, Display/Debug of every value). Oracle: no unwinding panic (caught at the harness boundary; overflow checks on), no hang; operations documented to panic on malformed escapes are only fed valid escapes. Non-trivial: the case got past request construction and belongs to an interesting class (folding with body > 32 KiB, known charset with non-UTF-8 bytes, extreme clock, >= 3 simultaneous oddities, direct call with non-ASCII / oversized argument); distinct by digest.";
+pub const RULE: &str = "generated: (a) arbitrary requests assembled from pieces -- any method token, request targets from path/query fragments (bad escapes, dot segments, '*', absolute form), arbitrary header names/values (all bytes the http crate admits), Authorization headers and X-Amz-* parameters from a grammar of near-valid and garbage forms, every content-type / charset label x arbitrary body bytes, all option and requirement combinations, server clocks over chrono's whole range; (b) LARGE requests: form bodies of 64-200 KiB folded into the query, request targets up to the http crate's 65534-byte limit, thousands of parameters and headers; (c) direct calls of every public operation with arbitrary arguments (path/query/header canonicalisers, normalize_*, trim_ascii*, latin1_to_string, KSecretKey::<M>::from_str and all derivations, builders with missing fields, prevalidate/validate_signature on builder-made authenticators with arbitrary credentials, extreme clocks and durations, error conversions, Display/Debug of every value). (d) reference-signed VALID requests (the success path, incl. absolute- and authority-form targets with folding); (e) the direct operations, capacity enumeration and timestamps again under a TRACE-level logger that renders every record. Oracle: no unwinding panic (caught at the harness boundary; overflow checks on), no hang; operations documented to panic on malformed escapes are only fed valid escapes. Non-trivial: the case got past request construction and belongs to an interesting class (folding with body > 32 KiB, known charset with non-UTF-8 bytes, extreme clock, >= 3 simultaneous oddities, direct call with non-ASCII / oversized argument); distinct by digest.";
 
 pub const CHARSETS: &[&str] = &[
     "utf-8", "utf8", "UTF-8", "unicode-1-1-utf-8", "iso-8859-1", "latin1", "ascii", "us-ascii", "windows-1252", "iso-8859-2", "iso-8859-5", "iso-8859-15",
@@ -222,14 +222,6 @@ pub fn subs() -> Vec<Box<dyn AnySub>> {
             check: check_large,
         }),
         Box::new(EnumSub { name: "fold-uri-limit-sweep", exhaustive: true, list: limit_sweep, check: check_limit }),
-        Box::new(Sub { name: "requests-with-trace-logging", quick: 20_000, thorough: 300_000, strat: any_case, check: check_any_logged }),
-        Box::new(Sub {
-            name: "valid-then-broken-with-trace-logging",
-            quick: 10_000,
-            thorough: 150_000,
-            strat: || (plan(PlanOpts::default()), super::c01::mutation()).prop_map(|(plan, mutation)| super::c01::Mutated { plan, mutation }).boxed(),
-            check: check_mutated_logged,
-        }),
         Box::new(Sub { name: "direct", quick: 40_000, thorough: 600_000, strat: direct, check: check_direct }),
         Box::new(EnumSub {
             name: "timestamps",
@@ -251,6 +243,18 @@ pub fn subs() -> Vec<Box<dyn AnySub>> {
         }),
         Box::new(EnumSub { name: "secret-capacities", exhaustive: true, list: super::c06::cap_list, check: check_cap_total }),
         Box::new(EnumSub { name: "direct-bytes", exhaustive: true, list: |_| (0u16..256).map(|b| b as u8).collect(), check: check_byte }),
+        // (last: once the capturing logger is installed, trace-level arguments are evaluated for the rest of the process)
+        Box::new(Sub { name: "requests-with-trace-logging", quick: 20_000, thorough: 300_000, strat: any_case, check: check_any_logged }),
+        Box::new(Sub {
+            name: "valid-then-broken-with-trace-logging",
+            quick: 10_000,
+            thorough: 150_000,
+            strat: || (plan(PlanOpts::default()), super::c01::mutation()).prop_map(|(plan, mutation)| super::c01::Mutated { plan, mutation }).boxed(),
+            check: check_mutated_logged,
+        }),
+        Box::new(Sub { name: "direct-with-trace-logging", quick: 15_000, thorough: 200_000, strat: direct, check: |d, cc| logged(|| check_direct(d, cc)) }),
+        Box::new(EnumSub { name: "secret-capacities-with-trace-logging", exhaustive: true, list: super::c06::cap_list, check: |c, cc| logged(|| check_cap_total(c, cc)) }),
+        Box::new(Sub { name: "timestamps-mutated-with-trace-logging", quick: 5_000, thorough: 100_000, strat: super::c16::mutated, check: |t, cc| logged(|| check_ts_total(t, cc)) }),
     ]
 }
 
@@ -720,6 +724,12 @@ pub fn check_limit(lc: &LimitCase, cc: &mut CaseCtx) -> CheckResult {
 
 /// The same arbitrary requests with a TRACE-level logger that renders every record: the formatting code behind
 /// `trace!` / `debug!` (Debug impls of internal values) runs on hostile input too.
+/// run a check while a logger renders every record down to trace level
+fn logged(f: impl FnOnce() -> CheckResult) -> CheckResult {
+    exec::enable_log_capture();
+    exec::with_logs(f).0.map_err(|f| Failure::new(&format!("{}:trace-logging", f.sig), f.msg))
+}
+
 pub fn check_any_logged(ac: &AnyCase, cc: &mut CaseCtx) -> CheckResult {
     exec::enable_log_capture();
     let (r, logs) = exec::with_logs(|| check_any(ac, cc));
